@@ -57,7 +57,7 @@ def correspondence(ctx, n_length=None, tag=""):
     n, length = n_length or ctx.scale((36, 100), (150, 160))
     traces = _traces(ctx, n, length, tag)
     ctx.traces = traces
-    checks, inv_checks, proto_checks = [], [], []
+    checks, inv_checks, proto_checks, hyp_terms = [], [], [], []
     header = e2.HEADER.replace("model.GraphTree.", "model.GraphTree model.GraphInv model.GraphTreeInv.")
     for tr, cnt, strict in traces:
         for k, v in cnt.items():
@@ -74,6 +74,11 @@ def correspondence(ctx, n_length=None, tag=""):
         proto_checks.append(("inv_treefile_b", f"all_prefixes_ok_t inv_treefile_b (init_st 3) {ops}"))
         proto_checks.append(("protocol_ok_run_t", f"protocol_ok_run_t (init_st 3) {ops}"))
         proto_checks.append(("inv_full_b", f"all_prefixes_ok_t inv_full_b (init_st 3) {ops}"))
+        # T2/T3 (incl. the inductive claims conjunct) on every prefix of the traces in which no
+        # define_step re-attaches a tree (C09_tree_ownership_every_prefix_partial, evaluated)
+        proto_checks.append(("inv_tree_strong_b", f"negb (tree_hyps_run (init_st 3) {ops}) || "
+                                                  f"all_prefixes_ok_t inv_tree_strong_b (init_st 3) {ops}"))
+        hyp_terms.append(f"tree_hyps_run (init_st 3) {ops}")
     ctx.sample({"trace_prefix": [list(map(str, t[:2])) for t in traces[0][0][:8]]})
     fixed = [(n, tr) for n, tr in fixed_traces(ctx).items() if tr is not None]
     fbad = common.run_cases(ctx, "e2fixed", header, [e2.cq_trace(tr, 3) for _, tr in fixed], chunk=6)
@@ -96,6 +101,9 @@ def correspondence(ctx, n_length=None, tag=""):
                         witness={"ops": [list(map(str, t[:2])) for t in tr[: (k or 0) + 1]],
                                  "implementation_dump": tr[k][3] if k is not None else None})
     _proto_failures(ctx, header, proto_checks, traces)
+    # non-vacuity of the hypotheses of the partial tree theorems
+    hv = common.eval_terms(ctx, "treehyp", header, hyp_terms)
+    ctx.count("traces_satisfying_tree_hyps", sum(1 for v in hv if v and "true" in v))
     bad = common.run_cases(ctx, "inv", header, inv_checks, chunk=6)
     for b in bad[:3]:
         tr = traces[b][0]
@@ -242,7 +250,7 @@ def _proto_failures(ctx, header, proto_checks, traces):
         if name in seen:
             continue
         seen.add(name)
-        tr = traces[b // 4][0]
+        tr = traces[b // 5][0]
         ctx.add_failure("correspondence", f"E2:{name}", f"E2:{name}-false-on-reachable-state",
                         f"{name} is false on a prefix of a trace that the implementation executed",
                         witness={"ops": [list(map(str, t[:2])) for t in tr]})
